@@ -176,6 +176,36 @@ def ral_parse_vaa(repo):
     return out
 
 
+def ral_attest_layout(repo):
+    src = _strip_comments(open(os.path.join(repo, "alephium/contracts/token_bridge/token_bridge.ral")).read())
+    body = _func_body(src, r"pub\s+fn\s+attestToken\s*\([^)]*\)[^{]*\{")
+    m = re.search(r"let\s+payload\s*=\s*((?:[^\n]+\+\+\s*\n?\s*)*[^\n]+)", body)
+    if not m:
+        raise ExtractError("attestToken: payload concatenation not found")
+    parts = [x.strip() for x in m.group(1).split("++")]
+    off, out = 0, {}
+    for part in parts:
+        mm = re.fullmatch(r"u256To(\d+)Byte!\((\w+)\)", part)
+        if mm:
+            n, name = int(mm.group(1)), mm.group(2)
+        elif re.fullmatch(r"PayloadId\.\w+", part):
+            n, name = 1, "payloadId"
+        elif re.fullmatch(r"\w+", part):
+            ms = re.search(r"assert!\(size!\(%s\)\s*==\s*(\d+)" % re.escape(part), body)
+            if not ms:
+                raise ExtractError("attestToken: no size assertion for " + part)
+            n, name = int(ms.group(1)), part
+        else:
+            raise ExtractError("attestToken: unrecognised payload part: " + part)
+        out[name] = (off, off + n)
+        off += n
+    for need in ("localTokenId", "decimals", "symbol", "name"):
+        if need not in out:
+            raise ExtractError("attestToken: part %s missing" % need)
+    out["_total"] = off
+    return out
+
+
 def go_layout(name, lay):
     def fl(fs):
         return "[]verifField{" + ", ".join('{"%s", %d, %d}' % f for f in fs) + "}"
